@@ -37,20 +37,24 @@ class C15(Prop):
     }
 
     def sim_options(self, profile):
-        return {"max_boundaries": 6000, "jitter_steps": 3 if profile == "jitter" else 0}
+        return {"max_boundaries": 8000, "jitter_steps": 3 if profile == "jitter" else 0}
 
     def execute(self, sim, profile):
         from haiway import throttle
 
         s = sim.source
         limit = 1 + s.weighted((4, 3, 2, 1), "limit")
-        pk = s.draw(5, "period")
-        p_steps = (128, 256, 1024, 128, 1024)[pk]
+        pk = s.draw(7, "period")
+        p_steps = (128, 256, 1024, 128, 1024, 86400 * 1024, 90000 * 1024 + 512)[pk]
         period = p_steps * GRID
         if pk == 3:
             period_arg = timedelta(seconds=period)
         elif pk == 4:
             period_arg = 1  # the documented default spelling: an int
+        elif pk == 5:
+            period_arg = timedelta(days=1)
+        elif pk == 6:
+            period_arg = timedelta(days=1, hours=1, milliseconds=500)
         else:
             period_arg = period
         n = 1 + s.geometric(11, 5, "ncalls")
